@@ -22,12 +22,12 @@ class Cloning:
     for k,v in self._data.items():
       if k in self.__class__.REFERENCE_FIELDS:
         data_cpy[k] = self.field_to_s(k)
+      elif isinstance(v, gfapy.FieldArray):
+        data_cpy[k] = gfapy.FieldArray(v.datatype, deepcopy(list(v)))
       elif self._field_datatype(k) == "J":
         data_cpy[k] = json.loads(json.dumps(v))
       elif isinstance(v, gfapy.OrientedLine):
         data_cpy[k] = gfapy.OrientedLine(v.line, v.orient)
-      elif isinstance(v, gfapy.FieldArray):
-        data_cpy[k] = gfapy.FieldArray(v.datatype, deepcopy(list(v)))
       elif isinstance(v, list) or isinstance(v, str):
         data_cpy[k] = deepcopy(v)
       elif isinstance(v, gfapy.LastPos):
